@@ -352,3 +352,7 @@ CHECKS['C03']['text'] += (
 CHECKS['C17']['text'] += (
     " TrackerMB.v (1 370 lines) completes it with MatrixBlocking: run_many_mb / mb_means / mb_never_negative - with a ghost global order `ord` of the currently blocked customers (each blocked queue is the sub-sequence of ord towards that node), Python's update "
     "(push increment, pop element 0 of the cell, shift every larger number down) folded over the calls of any run gives exactly the matrix of positions in ord, the numbers in the cells are 1..increment-1 without gap or repetition.")
+CHECKS['C11']['text'] += (
+    " Preempt2r.v (1 020 lines): the reroute option, function level - preempt_reroute_spec / preempt_reroute_record / preempt_reroute_dest / preempt_reroute_to_other_node: one interruption record WITH the destination the rerouting router allows, the victim "
+    "leaves its node (no service record, no unblocking) and is handed to the destination's accept or the exit, the pre-emptor starts on the victim's server with the service time its marker prescribes, nobody else at the node changes; "
+    "reroute_same_node_refuted is a closed witness of the open finding F-11a (the destination is the node itself).")
